@@ -31,7 +31,7 @@ CONSTANTS SafeStore,        \* TRUE: a pre-populated *[][]string is replaced wha
                             \* FALSE: mutated model, copies are carved out of a shared chunk without a capacity limit
           ParseErrorWins,   \* TRUE: a malformed input is reported with the parser's error by every kind (normative)
                             \* FALSE: mutated / racy model, an io.WriterTo source that still has text to write
-                            \*        reports its "closed pipe" error instead (D27)
+                            \*        reports its "closed pipe" error instead (D54)
           SharedSkipCounter \* FALSE: every call skips the configured number of lines (the code: options by value)
                             \* TRUE: mutated model, the skip loop counts down the codec's own counter
 
